@@ -106,9 +106,9 @@ def resolvedList (own : AN (List Str)) (inherited : List Str) : List Str :=
 def resolvedSubgroups (own : AN (List (Str × List Str))) (inh : List (Str × List Str)) :=
   match own with | .value v => v | _ => inh
 
-def segmentValid (st : Settings) (s : SegmentS) : Bool :=
-  s.name ≠ [] && !s.files.isEmpty && filesValid s.files
-  && notNull s.fixedVram && notNull s.fixedSymbol && notNull s.followsSegment && notNull s.vramClass
+/-- the validity of everything in a segment except its name and files. -/
+def restValid (st : Settings) (s : SegmentS) : Bool :=
+  notNull s.fixedVram && notNull s.fixedSymbol && notNull s.followsSegment && notNull s.vramClass
   && atMostOne [s.fixedVram.hasValue, s.fixedSymbol.hasValue, s.followsSegment.hasValue, s.vramClass.hasValue]
   && notNull s.dir
   && (match s.gpInfo with
@@ -122,6 +122,9 @@ def segmentValid (st : Settings) (s : SegmentS) : Bool :=
   && notNull s.over.sectionsStartAlignment && notNull s.over.sectionsEndAlignment
   && notNull s.over.wildcardSections && notNull s.over.sectionsSubgroups
   && !hasSubgroupCycle (resolvedSubgroups s.over.sectionsSubgroups st.sectionsSubgroups)
+
+def segmentValid (st : Settings) (s : SegmentS) : Bool :=
+  decide (s.name ≠ []) && !s.files.isEmpty && filesValid s.files && restValid st s
 
 def classValid (v : VramClassS) : Bool :=
   v.name ≠ [] && notNull v.fixedVram && notNull v.fixedSymbol && notNull v.followsClasses
@@ -159,11 +162,15 @@ def settingsOf (d : DocumentS) : Option Settings :=
     | .ok st => some st
     | .error _ => none
 
+/-- `settings:` may be absent (all defaults) but not `null`. -/
+def settingsPartValid (d : DocumentS) : Bool :=
+  match d.settings with
+  | .null => false
+  | .absent => true
+  | .value s => settingsValid s
+
 def documentValid (d : DocumentS) : Bool :=
-  (match d.settings with
-   | .null => false
-   | .absent => true
-   | .value s => settingsValid s)
+  settingsPartValid d
   && !d.segments.isEmpty
   && listValid d.vramClasses classValid
   && (match settingsOf d with
